@@ -115,11 +115,11 @@ type fakeConn struct {
 	in        chan []byte
 	closed    chan struct{}
 	closeOnce sync.Once
-	onSend    func(frame []byte)
+	onSend    func(frame []byte) error
 	recvd     *notifier // frames handed to the read loop
 }
 
-func newFakeConn(onSend func([]byte)) *fakeConn {
+func newFakeConn(onSend func([]byte) error) *fakeConn {
 	return &fakeConn{in: make(chan []byte, 4096), closed: make(chan struct{}), onSend: onSend, recvd: newNotifier()}
 }
 
@@ -132,8 +132,7 @@ func (f *fakeConn) Send(ctx context.Context, b *bin.Buffer) error {
 	if err := ctx.Err(); err != nil {
 		return err
 	}
-	f.onSend(append([]byte(nil), b.Buf...))
-	return nil
+	return f.onSend(append([]byte(nil), b.Buf...))
 }
 
 func (f *fakeConn) Recv(ctx context.Context, b *bin.Buffer) error {
